@@ -33,7 +33,7 @@
    decrypts what every other member sends.
    Statements only. *)
 From Coq Require Import NArith List Bool.
-From MlsV Require Import Res TreeMathGen Tree Kem Priv PrivProofs Decap DecapProofs KemGen KemGenProofs TreeProofs TreeWF5 PrivComplete Agreement KemSecrets KemSecretsProofs Filter FilterProofs Pending PendingProofs.
+From MlsV Require Import Res TreeMathGen Tree Kem Priv PrivProofs Decap DecapProofs KemGen KemGenProofs TreeProofs TreeWF5 PrivComplete Agreement KemSecrets KemSecretsProofs Filter FilterProofs Pending PendingProofs NodeVecGen NodeVecGenProofs.
 Local Open Scope N_scope.
 Import ListNotations.
 
@@ -76,6 +76,16 @@ Example C01_ex :
   fst c = [Some [7%nat]; None; Some [0%nat; 7%nat]; Some [0%nat; 0%nat; 7%nat]]
   /\ receiver_chain (list nat) (fun s => 0%nat :: s) (skipn 2 [false; true; false; false]) [0%nat; 7%nat] = (skipn 2 (fst c), snd c).
 Proof. vm_compute. split; reflexivity. Qed.
+
+(* the node-vector operations behind every tree edit, TRANSLATED from tree_kem/node.rs on every run
+   (Gen/NodeVecGen.v), are those of the tree model; batch_edit applies its phases in the model's order *)
+Theorem C01_translated_node_vector_operations_are_the_model : forall t start index leaf,
+  gen_next_empty_leaf t start = next_empty_leaf t start /\
+  gen_insert_leaf t index leaf = insert_leaf t index leaf /\
+  gen_trim t = trim t /\
+  gen_total_leaf_count t = total_leaf_count t /\
+  gen_batch_phases = batch_phases.
+Proof. exact translated_node_vector. Qed.
 
 Print Assumptions C01_receivers_reach_the_committers_commit_secret.
 Print Assumptions C01_receivers_agree_with_each_other.
@@ -166,3 +176,4 @@ Theorem C01_receiver_level_is_unfiltered_in_the_committers_list :
   (k < length flt)%nat -> nth k flt true = false.
 Proof. exact receiver_level_unfiltered. Qed.
 Print Assumptions C01_receiver_level_is_unfiltered_in_the_committers_list.
+Print Assumptions C01_translated_node_vector_operations_are_the_model.
